@@ -28,6 +28,9 @@ import Pandora.Proofs.C15Flow
 import Pandora.Bridge.C15Flow
 import Pandora.Proofs.C15Walk
 import Pandora.Bridge.C15Walk
+import Pandora.Proofs.C15Tmpl
+import Pandora.Proofs.C15Jpath
+import Pandora.Bridge.C15Tmpl
 
 namespace Pandora.Props.C15
 open Pandora.Model.C15 Pandora.Spec.C15 Pandora.Proofs.C15
@@ -673,6 +676,104 @@ theorem C15_feed_source {α} (ring : List α) (p l fuel k : Nat) :
     Gen.C15Walk.feedFacts.all (·.2) = true :=
   ⟨Bridge.C15Walk.feedLoop_gen ring p l fuel k, Bridge.C15Walk.feedFacts_ok⟩
 
+/-! ## round 4: the template cache between the gun and the template library -/
+
+/-- **the templaters' cache is invisible** ("renders URI, headers and body from …" — the request of a step is a function
+of its definition and the variables in scope ONLY): `Apply` and `getTemplate` of `TextTemplater` and of `HTMLTemplater`
+as regenerated from the source — per part: fetch the template under `templateKey{scenario, step, part[, header name]}`
+(cached, else parsed and remembered; nothing is remembered on a parse error), check, execute into the builder, check,
+assign, reset; URL, then every header in whatever order the map is visited, then the body when present — run statement
+by statement with the builder's buffer and the cache explicit, over an ARBITRARY template library (`parse`, `exec`
+which may write partial output before failing) and for EVERY sequence of calls on one templater (any scenarios, steps,
+variables, any number of shots and instances one after the other) whose parts are the texts of the request definitions
+`defs scenario step`, yield for every call exactly the parts rendered on their own, each from its own text and the
+variables of that call: no call sees a template, or a piece of output, of another slot or of an earlier call. -/
+theorem C15_template_cache_transparent {τ V : Type} (parse : String → Option τ) (exec : τ → V → String × Bool)
+    (defs : String → String → TParts) (calls : List (String × String × TParts × V))
+    (hf : ∀ x ∈ calls, Fits defs x.1 x.2.1 x.2.2.1) :
+    runApplies Gen.C15Tmpl.applyCodeText Gen.C15Tmpl.getCodeText parse exec id [] calls =
+      calls.map (fun x => applyPure parse exec x.2.2.1 x.2.2.2) ∧
+    runApplies Gen.C15Tmpl.applyCodeHTML Gen.C15Tmpl.getCodeHTML parse exec id [] calls =
+      calls.map (fun x => applyPure parse exec x.2.2.1 x.2.2.2) := by
+  refine ⟨Bridge.C15Tmpl.applies_gen parse exec defs calls hf, ?_⟩
+  rw [Bridge.C15Tmpl.applyCodeHTML_eq, Bridge.C15Tmpl.getCodeHTML_eq, ← Bridge.C15Tmpl.applyCodeText_eq, ← Bridge.C15Tmpl.getCodeText_eq]
+  exact Bridge.C15Tmpl.applies_gen parse exec defs calls hf
+
+/-- **cache keys as regenerated separate the slots**: `templateKey` has the four string fields the call sites fill, the
+three `part` constants are pairwise different, every site stores scenario and step, the header site the header name —
+so two slots (scenario, step, part, header name) have the same key only if they are the same slot; and the parts handed
+to `Apply` are copies of the ammo's (`GetHeaders`, `GetBody` as regenerated from ammo.go). -/
+theorem C15_template_key_source (s s' : TSite) (scn stp hk scn' stp' hk' : String)
+    (hs : s ∈ [Gen.C15Tmpl.applyCodeText.url.site, Gen.C15Tmpl.applyCodeText.header.site, Gen.C15Tmpl.applyCodeText.body.site])
+    (hs' : s' ∈ [Gen.C15Tmpl.applyCodeText.url.site, Gen.C15Tmpl.applyCodeText.header.site, Gen.C15Tmpl.applyCodeText.body.site])
+    (h : s.keyOf scn stp hk = s'.keyOf scn' stp' hk') :
+    (s = s' ∧ scn = scn' ∧ stp = stp' ∧ (s.keyed = true → hk = hk')) ∧
+    Gen.C15Tmpl.keyFields = ["scenario", "step", "part", "key"] ∧ Gen.C15Tmpl.partsFresh.all (·.2) = true := by
+  refine ⟨?_, Bridge.C15Tmpl.keyFields_eq, Bridge.C15Tmpl.partsFresh_ok⟩
+  have hall := Bridge.C15Tmpl.sites_distinct
+  simp only [List.all_cons, List.all_nil, Bool.and_true, Bool.and_eq_true] at hall
+  obtain ⟨d1, d2, d3, ⟨a1, a2, a3⟩, _⟩ := hall
+  have hb : ∀ t ∈ [Gen.C15Tmpl.applyCodeText.url.site, Gen.C15Tmpl.applyCodeText.header.site, Gen.C15Tmpl.applyCodeText.body.site],
+      (t.scen && t.step) = true := by
+    intro t ht
+    simp only [List.mem_cons, List.not_mem_nil, or_false] at ht
+    rcases ht with rfl | rfl | rfl
+    · simpa using a1
+    · simpa using a2
+    · simpa using a3
+  obtain ⟨p, e1, e2, e3⟩ := Bridge.C15Tmpl.keyOf_inj s s' scn stp hk scn' stp' hk' (hb s hs) (hb s' hs') h
+  have hss : s = s' := by
+    simp only [List.mem_cons, List.not_mem_nil, or_false] at hs hs'
+    rcases hs with rfl | rfl | rfl <;> rcases hs' with rfl | rfl | rfl <;>
+      first | rfl | exact absurd p d1 | exact absurd p d2 | exact absurd p d3
+            | exact absurd p.symm d1 | exact absurd p.symm d2 | exact absurd p.symm d3
+  subst hss
+  exact ⟨rfl, e1, e2, fun k => e3 k k⟩
+
+/-- the full-strength claim for a cache that compares keys by the JOINED text `scenario_step_part_key`
+(`templateKey.String()`, what the cache was keyed by before repair 2826876) -/
+def C15_template_joined_key_statement : Prop :=
+  ∀ (parse : String → Option String) (exec : String → String → String × Bool)
+    (defs : String → String → TParts) (calls : List (String × String × TParts × String)),
+    (∀ x ∈ calls, Fits defs x.1 x.2.1 x.2.2.1) →
+    runApplies Gen.C15Tmpl.applyCodeText Gen.C15Tmpl.getCodeText parse exec TKey.joined [] calls =
+      calls.map (fun x => applyPure parse exec x.2.2.1 x.2.2.2)
+
+/-- **`var/jsonpath` as regenerated from the source** (its own loop around `encoding/json` and `jsonpath`, both abstract:
+any `decode`, any `get`): the extractor yields nothing for an empty mapping; otherwise it succeeds exactly when the body
+decodes and EVERY path of the mapping resolves — one unresolved path fails the step whatever the other entries did, in
+whatever order the map is visited — and then it yields exactly the resolved entries. -/
+theorem C15_jsonpath_source {β J V : Type} (decode : β → Option J) (get : String → J → Option V)
+    (mapping : List (String × String)) (body : β) :
+    runJsonpath decode get Gen.C15Tmpl.jsonpathCode mapping body = varJsonpath decode get mapping body ∧
+    ((varJsonpath decode get mapping body).isSome = true ↔
+      (mapping = [] ∨ ∃ d, decode body = some d ∧ ∀ kp ∈ mapping, (get kp.2 d).isSome = true)) ∧
+    (∀ d, decode body = some d → mapping ≠ [] → (∀ kp ∈ mapping, (get kp.2 d).isSome = true) →
+      varJsonpath decode get mapping body = some (jResolved get d mapping) ∧
+      (jResolved get d mapping).map (·.1) = mapping.map (·.1)) := by
+  refine ⟨Bridge.C15Tmpl.jsonpath_gen decode get mapping body, varJsonpath_ok_iff decode get mapping body, ?_⟩
+  intro d hd hne hall
+  have hres : ∀ m : List (String × String), (∀ kp ∈ m, (get kp.2 d).isSome = true) →
+      jAnyFail get d m = false ∧ (jResolved get d m).map (·.1) = m.map (·.1) := by
+    intro m
+    induction m with
+    | nil => intro _; exact ⟨rfl, rfl⟩
+    | cons a t ih =>
+      obtain ⟨k, p⟩ := a
+      intro h
+      have hp := h (k, p) (List.mem_cons_self ..)
+      obtain ⟨i1, i2⟩ := ih (fun kp hk => h kp (List.mem_cons_of_mem _ hk))
+      simp only at hp
+      cases hg : get p d with
+      | none => rw [hg] at hp; cases hp
+      | some v => simp [jAnyFail, jResolved, hg, i1, i2]
+  obtain ⟨h1, h2⟩ := hres mapping hall
+  refine ⟨?_, h2⟩
+  unfold varJsonpath
+  cases mapping with
+  | nil => exact absurd rfl hne
+  | cons a t => simp only [List.isEmpty_cons, Bool.false_eq_true, ↓reduceIte, hd]; rw [resolveAll_eq, h1]; rfl
+
 /-! ## non-vacuity: concrete inputs meeting the hypotheses of every theorem -/
 
 section Examples
@@ -974,6 +1075,42 @@ example : (decodeAmmo exReqs (exScs.take 2)).bind (fun ring => .ok ((feed ring 1
     (decodeAmmo exReqs (exScs.take 2)).bind (fun ring => .ok ((feed ring 2 7 20).map (String.ofList ·.name))) =
       .ok ["s1", "s1", "s1", "s2", "s2", "s1", "s1"] := by decide
 
+
+-- C15_template_cache_transparent: the hypotheses hold of three calls (the third one is served from the cache, a header is named `url`)
+example : runApplies Gen.C15Tmpl.applyCodeText Gen.C15Tmpl.getCodeText tExParse tExExec id [] tExCalls =
+    [some { url := "/x!", headers := [("h", "1!"), ("url", "2!")], body := some "B!" },
+     some { url := "/y?", headers := [], body := none },
+     some { url := "/x#", headers := [("h", "1#"), ("url", "2#")], body := some "B#" }] := by decide
+
+-- … and the interpretation is not blind: without `reset` (a builder that keeps what an earlier part wrote) the second
+-- header carries the first one's text; with the error check of `Execute` dropped a failed template is sent half rendered
+example : (runApply { applyCode with header := { applyCode.header with ops := [.get, .chk, .exec, .chk, .assign] } } getCode
+      tExParse tExExec id [] "a_b" "c" (tExDefs "a_b" "c") "!").1 =
+    some { url := "/x!", headers := [("h", "1!"), ("url", "1!2!")], body := some "1!2!B!" } := by decide
+example : (runApply { applyCode with url := { applyCode.url with ops := [.get, .chk, .exec, .assign, .reset] } } getCode
+      tExParse tExExec id [] "s" "t" { url := "boom", headers := [], body := none } "!").1 =
+    some { url := "par", headers := [], body := none } ∧
+    (runApply applyCode getCode tExParse tExExec id [] "s" "t" { url := "boom", headers := [], body := none } "!").1 = none := by decide
+
+
+-- C15_jsonpath_source: both sides occur (bodies are key lists, a path resolves when it is one of the keys); and the
+-- interpretation is not blind: with the `continue` branch dropped an unresolved path is skipped and the step succeeds
+example : varJsonpath (fun (b : List String) => if b.isEmpty then none else some b) (fun p d => if d.contains p then some p else none)
+      [("tok", "a"), ("n", "b")] ["a", "b", "c"] = some [("tok", "a"), ("n", "b")] ∧
+    varJsonpath (fun (b : List String) => if b.isEmpty then none else some b) (fun p d => if d.contains p then some p else none)
+      [("tok", "a"), ("n", "zz")] ["a", "b", "c"] = none ∧
+    runJsonpath (fun (b : List String) => if b.isEmpty then none else some b) (fun p d => if d.contains p then some p else none)
+      { jsonpathCode with loop := [.get, .store] } [("tok", "a"), ("n", "zz")] ["a", "b", "c"] = some [("tok", "a")] := by decide
+
 end Examples
+
+/-- **a cache keyed by the joined text is NOT invisible**: scenario `a_b` / step `c` and scenario `a` / step `b_c` share
+the key text `a_b_c_url_`, the second is rendered from the first one's template -/
+theorem C15_template_joined_key_counterexample : ¬ C15_template_joined_key_statement := by
+  intro h
+  have := h tExParse tExExec tExDefs tExCalls tExCalls_fit
+  revert this
+  decide
+
 
 end Pandora.Props.C15
